@@ -192,8 +192,7 @@ func newLK(p *Program, spec *LockSpec, pkgs ...string) *LK {
 	for _, rel := range pkgs {
 		for _, fn := range p.AllFuncs(rel) {
 			lk.makeUnits(fn)
-			info := fn.Info()
-			for _, ss := range stringSwitches(fn, func(e ast.Expr) bool { return isCommandCall(info, e) }) {
+			for _, ss := range stringSwitches(fn, func(e ast.Expr) bool { return p.isCommandTag(fn, e) }) {
 				lk.dispFns[fn.Obj] = true
 				for _, s := range ss.allStrings() {
 					if _, ok := lk.cmdIdx[s]; !ok {
@@ -676,7 +675,7 @@ func (lk *LK) computeRefine(u *Unit) {
 	info := u.Info()
 	inspectNoLit(u.Body, func(n ast.Node) bool {
 		sw, ok := n.(*ast.SwitchStmt)
-		if !ok || sw.Tag == nil || !isCommandCall(info, sw.Tag) {
+		if !ok || sw.Tag == nil || !lk.p.isCommandTag(u.Fn, sw.Tag) {
 			return true
 		}
 		for _, c := range sw.Body.List {
